@@ -805,6 +805,9 @@ func (e *Engine) unop(fr *frame, instr *ssa.UnOp, x value) value {
 			return -x
 		}
 	case token.MUL:
+		if sp, ok := x.(*symptr); ok {
+			return e.mergeLoad(sp)
+		}
 		p := x.(*value)
 		if p == nil {
 			panic(rtPanic{"runtime error: invalid memory address or nil pointer dereference"})
